@@ -120,11 +120,32 @@ def lincheck_batch(ctx, lin, spec, hists, tag):
 
 
 def build_shards(ctx, shards):
-    """compile the harness shards in parallel (each is cached by content hash of everything it can see)"""
-    vcheck.libcds(True)      # build (or find) the hooked library once, before the parallel compiles ask for it
+    """compile the harness shards in parallel (each is cached by content hash of everything it can see).
+    The hooked libcds.a is copied into this check's own work directory first: the shared cache under _work/libcds
+    is pruned by concurrently running checks."""
+    import shutil, time
+    sub = "h" if vcheck.REPO == "/repo" else "h_" + vcheck.hashlib.sha256(vcheck.REPO.encode()).hexdigest()[:8]
+    d = os.path.join(ctx.work, sub)
+    os.makedirs(d, exist_ok=True)
+    mylib = None
+    for attempt in range(4):
+        try:
+            lib = vcheck.libcds(True)
+            mylib = os.path.join(d, "libcds_" + os.path.basename(os.path.dirname(lib)) + ".a")
+            if not os.path.exists(mylib):
+                shutil.copy(lib, mylib + ".tmp"); os.replace(mylib + ".tmp", mylib)
+            break
+        except (OSError, vcheck.BuildError) as e:
+            if attempt == 3:
+                raise vcheck.BuildError("libcds (hook on) cannot be built/copied: %s" % e)
+            time.sleep(2)
+    for f in os.listdir(d):         # older copies
+        if f.startswith("libcds_") and os.path.join(d, f) != mylib:
+            try: os.remove(os.path.join(d, f))
+            except OSError: pass
     exes = {}
     def one(s):
-        return s, vcheck.cxx_build(HARNESS, os.path.join(ctx.work, "h", "shard%d" % s), hook=True, extra=("-DC13_SHARD=%d" % s,), timeout=1500)
+        return s, vcheck.cxx_build([HARNESS, mylib], os.path.join(d, "shard%d" % s), hook=True, extra=("-DC13_SHARD=%d" % s,), link_cds=False, timeout=1500)
     with concurrent.futures.ThreadPoolExecutor(max_workers=min(len(shards), vcheck.NCPU)) as ex:
         for s, e in ex.map(one, shards):
             exes[s] = e
@@ -245,7 +266,13 @@ def observable(ctx, exes, variants, lin, cases_by_shard, tag, stats, report=True
         futs = {s: ex.submit(run_shard, ctx, exes[s], cs, "%s_s%d" % (tag, s)) for s, cs in cases_by_shard.items() if cs}
         results = {s: f.result() for s, f in futs.items()}
     for s, (rc, logs, raw) in sorted(results.items()):
-        cs = cases_by_shard[s]
+        nbad += observable_logs(ctx, variants, lin, cases_by_shard[s], logs, rc, raw, "%s_s%d" % (tag, s), stats, report)
+    return nbad
+
+
+def observable_logs(ctx, variants, lin, cs, logs, rc, raw, tag, stats, report=True):
+    nbad = 0
+    if True:
         an = []
         for c in cs:
             lg = logs.get(c["id"])
@@ -255,7 +282,7 @@ def observable(ctx, exes, variants, lin, cases_by_shard, tag, stats, report=True
             an.append(analyse_case(c, lg))
         for spec in ("set", "map"):
             idx = [i for i, c in enumerate(cs) if an[i] is not None and (c["cfg"][0] // 100 == 2) == (spec == "map")]
-            verdicts = lincheck_batch(ctx, lin, spec, [an[i]["lines"] for i in idx], "%s_s%d_%s" % (tag, s, spec))
+            verdicts = lincheck_batch(ctx, lin, spec, [an[i]["lines"] for i in idx], "%s_%s" % (tag, spec))
             for i, v in zip(idx, verdicts):
                 an[i]["verdict"] = v
         for c, a in zip(cs, an):
@@ -287,6 +314,107 @@ def observable(ctx, exes, variants, lin, cases_by_shard, tag, stats, report=True
     return nbad
 
 
+# --------------------------------------------------------------------------------------------------
+# (B) step correspondence: LV.Model.MichaelList vs cds::intrusive::MichaelList<gc::HP> (variants 0 and 3)
+STEP_VARIANTS = [0, 3]
+
+
+def gen_step_cases(ctx, rng, n, tag):
+    """programs aimed at the case splits of the proofs + random ones; keys 0..3, 2-3 threads x <= 4 ops"""
+    cases = []
+    erasers = [4, 5, 6, 7]
+    readers = [8, 9, 10]
+    inserters = [1, 2, 3]
+    for i in range(n):
+        vid = STEP_VARIANTS[i % 2]
+        kind = rng.below(5)
+        a = rng.below(3); b = a + 1 + rng.below(3 - a)      # a < b
+        def ins(k):
+            c = rng.choice(inserters)
+            return [c, k, 1 if c == 3 else 0, 0]
+        if kind == 0:        # insert racing with the erase of its predecessor
+            threads = [[ins(a), [rng.choice(erasers), a, 0, 0]], [ins(b)] + ([[rng.choice(readers), b, 0, 0]] if rng.chance(1, 2) else [])]
+        elif kind == 1:      # two erases of the same key (mark CAS race)
+            threads = [[ins(a), [rng.choice(erasers), a, 0, 0]], [[rng.choice(erasers), a, 0, 0]] + ([ins(a)] if rng.chance(1, 2) else [])]
+            if rng.chance(1, 3):
+                threads.append([[rng.choice(erasers), a, 0, 0]])
+        elif kind == 2:      # a search that meets a marked node and helps to unlink it
+            threads = [[ins(a), ins(b), [rng.choice(erasers), a, 0, 0]], [[rng.choice(readers + inserters), b, 1, 0], [rng.choice(readers), a, 0, 0]]]
+        elif kind == 3:      # update of an existing key racing with its erase, two inserts of the same key
+            threads = [[ins(a), [3, a, rng.below(2), 0], [rng.choice(erasers), a, 0, 0]], [ins(a), [3, a, 1, 0]]]
+        else:
+            nthreads = 2 + (1 if rng.chance(1, 3) else 0)
+            threads = gen_program(rng, vid, nthreads)
+        nthreads = len(threads)
+        sk = rng.below(3)
+        if sk == 0:          # run one thread to a chosen step, then the other, alternate in long segments
+            sched = []
+            for _ in range(2 + rng.below(7)):
+                sched += [rng.below(nthreads)] * (1 + rng.below(30))
+        elif sk == 1:
+            sched = [rng.below(nthreads) for _ in range(30 + rng.below(200))]
+        else:                # first operation(s) of thread 0 complete, then fine-grained interleaving
+            sched = [0] * (10 + rng.below(25))
+            for _ in range(20 + rng.below(60)):
+                sched += [rng.below(nthreads)] * (1 + rng.below(4))
+        cases.append({"id": "%s_%d" % (tag, i), "cfg": [vid, 1, 20000], "threads": threads, "sched": sched})
+    return cases
+
+
+def strip_sp(log):
+    return {"lines": [l for l in log["lines"] if " ev sp " not in l], "end": log["end"], "extra": log["extra"]}
+
+
+def run_step(ctx, exes, variants, lin, stats, n, corpus):
+    """-> dict of measured numbers; reports violations"""
+    model = conc_check.build_model(ctx, "Extract_MichaelList.v")
+    cases = [c for c in corpus if c["cfg"][0] in STEP_VARIANTS and c["cfg"][1] == 1] + gen_step_cases(ctx, ctx.rng.fork(), n, "s")
+    cf = os.path.join(ctx.work, "step.txt")
+    conc_check.write_cases(cf, cases)
+    rc1, out1 = vcheck.sh("%s %d < %s" % (model, 20000, cf), timeout=900)
+    mlog = conc_check.parse_logs(out1)
+    rc2, ilog, raw = run_shard(ctx, exes[0], cases, "step_impl")
+    diverged = 0; first_div = None; steps = 0
+    shapes = set(); contended = set(); helped = set(); kinds = collections.Counter()
+    for c in cases:
+        m = mlog.get(c["id"]); i = ilog.get(c["id"])
+        if m is None or i is None:
+            diverged += 1
+            first_div = first_div or (c, {"index": -1, "model": "<no output>" if m is None else "ok", "impl": "<no output>" if i is None else "ok", "prefix": []})
+            continue
+        i2 = strip_sp(i)
+        steps += len(i2["lines"])
+        d = conc_check.compare(m, i2)
+        shape = hash(tuple(m["lines"]))
+        shapes.add(shape)
+        ncasfail = sum(1 for l in m["lines"] if " cas " in l and l.endswith(" 0"))
+        if ncasfail:
+            contended.add(shape)
+        for l in m["lines"]:
+            t = l.split(" ")
+            if len(t) == 4 and t[1] in ("ld", "st", "cas", "faa", "fas"):
+                kinds[t[1] + (":fail" if t[1] == "cas" and t[3] == "0" else "")] += 1
+        if d is not None:
+            diverged += 1
+            if first_div is None:
+                first_div = (c, d)
+    # the same real executions through the implementation-side monitors (lincheck, quiescent traversal, functors)
+    nbad = observable_logs(ctx, variants, lin, cases, ilog, rc2, raw, "step", stats, report=True)
+    if first_div is not None and nbad == 0:
+        c, d = first_div
+        # the correspondence broke: look for a real failure over an enlarged seed set, on every MichaelList variant
+        more = collections.defaultdict(list)
+        rng = ctx.rng.fork()
+        extra = gen_step_cases(ctx, rng, 3000, "x")
+        found = observable(ctx, exes, variants, lin, {0: extra}, "search", {}, report=True)
+        if not found:
+            ctx.violation("step correspondence between LV.Model.MichaelList and cds/intrusive/impl/michael_list.h (MichaelList<gc::HP>) no longer holds",
+                          {"correspondence": "Model/MichaelList.v vs cds::intrusive::MichaelList<cds::gc::HP>", "case": c, "first_divergence": d}, no_input=True)
+    return {"step_cases": len(cases), "step_diverged": diverged, "impl_steps_compared": steps, "distinct_event_logs": len(shapes),
+            "distinct_event_logs_with_failed_cas": len(contended), "access_histogram": dict(kinds),
+            "traces_validated_against_impl": len(cases) - diverged}
+
+
 def run(ctx):
     exes = build_shards(ctx, SHARDS)
     variants = {}; shard_of = {}
@@ -294,6 +422,7 @@ def run(ctx):
         for vid, name in shard_variants(e):
             variants[vid] = name; shard_of[vid] = s
     lin = build_lincheck(ctx)
+    ctx.log("built %d harness shards (%d variants) + lincheck" % (len(exes), len(variants)))
     stats = {}
 
     # ---- replay of one recorded case ----
@@ -311,6 +440,7 @@ def run(ctx):
     if os.path.exists(os.path.join(vcheck.COQ, prop)):
         res = vcheck.coq_build([prop])
         ctx.coq_evidence(res)
+        ctx.log("coq: %d/%d obligations" % (len(res.discharged), len(res.obligations)))
 
     # ---- (A) observable correspondence, every variant ----
     per_variant = 150 if ctx.thorough() else 40
@@ -327,6 +457,10 @@ def run(ctx):
         by_shard[shard_of[vid]] += gen_cases(ctx, ctx.rng.fork(), vid, per_variant, "o")
     nbad = observable(ctx, exes, variants, lin, by_shard, "obs", stats)
     ctx.log("observable: %d variants, %d cases, %d bad" % (len(variants), sum(s["cases"] for s in stats.values()), nbad))
+
+    # ---- (B) step correspondence for intrusive MichaelList<HP> ----
+    stepinfo = run_step(ctx, exes, variants, lin, stats, 3000 if ctx.thorough() else 800, corpus)
+    ctx.log("step: %(step_cases)d cases, %(step_diverged)d diverged, %(impl_steps_compared)d accesses compared, %(distinct_event_logs_with_failed_cas)d distinct logs with a failed CAS" % stepinfo)
 
     if res is not None and not res.ok:
         ctx.violation("Coq obligations of C13 do not check: %s" % (res.failed[:2],), {"theorem": [f[2] for f in res.failed], "errors": res.failed[:3]}, no_input=True)
@@ -345,7 +479,9 @@ def run(ctx):
         "op_result_histogram": dict(tot_ops),
         "histories_decided_by_verified_lincheck": sum(sum(s["verdicts"].values()) for s in stats.values()),
         "samples": [by_shard[shard_of[min(variants)]][0]] if variants else [],
+        "modelled": "cds::intrusive::MichaelList<cds::gc::HP> (search with helping, link_node, unlink_node, insert_at, update_at, erase_at, unlink_at, extract_at, find_at, get_at, HP guard traffic)",
     })
+    ctx.coverage.update(stepinfo)
     return ctx.finish(vcheck.STD_TRUSTED + ["hook layer: khizmax_libcds_verif::atomic<T>, baton scheduler, event log (hooks/include)", "ocaml/lincheck_main.ml (text parser around the verified lincheck)", "harness/C13 adapters: translation of each API call into the spec vocabulary (`sp` records)"],
                       ["sequential consistency: memory_order arguments are not modelled", "compare_exchange_weak never fails spuriously under the hook",
                        "observable correspondence is sampling (every history sampled is decided exactly by the verified lincheck)"])
